@@ -167,10 +167,18 @@ impl Srv {
         loop {
             // poll with timeout so a hung server is a machinery error, not a hang of the explorer
             if self.ctl.buffer().is_empty() {
-                let mut pfd = libc::pollfd { fd: self.ctl.get_ref().as_raw_fd(), events: libc::POLLIN, revents: 0 };
-                let r = unsafe { libc::poll(&mut pfd, 1, STEP_TIMEOUT_MS) };
-                if r == 0 {
-                    machinery_error(format!("a controlled server did not reach its next scheduling point within {STEP_TIMEOUT_MS} ms; trace tail: {:?}", self.trace.iter().rev().take(5).collect::<Vec<_>>()));
+                // (the server's stdout is drained while waiting: a reply larger than the pipe must not wedge it)
+                let t0 = std::time::Instant::now();
+                loop {
+                    let mut pfd = libc::pollfd { fd: self.ctl.get_ref().as_raw_fd(), events: libc::POLLIN, revents: 0 };
+                    let r = unsafe { libc::poll(&mut pfd, 1, 20) };
+                    if r != 0 {
+                        break;
+                    }
+                    self.drain_stdout();
+                    if t0.elapsed().as_millis() as i32 > STEP_TIMEOUT_MS {
+                        machinery_error(format!("a controlled server did not reach its next scheduling point within {STEP_TIMEOUT_MS} ms; trace tail: {:?}", self.trace.iter().rev().take(5).collect::<Vec<_>>()));
+                    }
                 }
             }
             let mut line = String::new();
@@ -585,8 +593,15 @@ pub fn run_schedule(env: &WorkerEnv, sys: &System, opts: &RunOpts) -> Exec {
                             frame_of(&Request::Put { path: path.clone(), expected, len: declared_len.unwrap_or(content.len() as u64), hash: declared_hash.unwrap_or_else(|| h(content)) })
                         }
                     };
+                    // a request frame larger than the pipe is delivered like content: in pieces, one per read
+                    let mut chunks: Vec<Vec<u8>> = bytes.chunks(32_768).map(<[u8]>::to_vec).collect();
+                    let first = if chunks.is_empty() { Vec::new() } else { chunks.remove(0) };
+                    if !chunks.is_empty() {
+                        chunks.append(&mut s.pending_pieces);
+                        s.pending_pieces = chunks;
+                    }
                     if let Some(w) = s.stdin.as_mut() {
-                        let _ = w.write_all(&bytes);
+                        let _ = w.write_all(&first);
                         let _ = w.flush();
                     }
                     label = format!("{t}: send {}", op_label(&op));
@@ -820,6 +835,9 @@ fn exp_label(e: &Exp) -> String {
 
 // ───────────────────────── CHESS exploration ─────────────────────────
 
+/// Wall-clock budget of ONE explored system (a change that makes every schedule slow must still end in a verdict).
+pub static EXPLORE_BUDGET_MS: AtomicU64 = AtomicU64::new(120_000);
+
 pub struct ExploreOut {
     pub schedules: u64,
     pub steps: u64,
@@ -828,6 +846,8 @@ pub struct ExploreOut {
     pub max_points: usize,
     /// distinct (hub tree, per-server progress, lock holder) states seen across all schedules
     pub distinct_states: u64,
+    /// the schedule cap or the wall-clock budget stopped the exploration before the work list was empty
+    pub stopped_early: bool,
 }
 
 /// Explore every schedule of `sys` with at most `bound` preemptions (and at most one kill if allowed).
@@ -843,6 +863,8 @@ pub fn explore(
     max_schedules: u64,
 ) -> ExploreOut {
     let queue: Mutex<Vec<Vec<u8>>> = Mutex::new(vec![Vec::new()]);
+    let started = std::time::Instant::now();
+    let stopped = AtomicU64::new(0);
     let busy = AtomicU64::new(0);
     let schedules = AtomicU64::new(0);
     let steps = AtomicU64::new(0);
@@ -870,7 +892,9 @@ pub fn explore(
                         std::thread::sleep(std::time::Duration::from_micros(200));
                         continue;
                     };
-                    if schedules.load(Ordering::Relaxed) >= max_schedules {
+                    if schedules.load(Ordering::Relaxed) >= max_schedules || started.elapsed().as_millis() as u64 > EXPLORE_BUDGET_MS.load(Ordering::Relaxed) {
+                        // schedule cap or wall-clock budget of this system reached: what was executed is still judged
+                        stopped.store(1, Ordering::Relaxed);
                         busy.fetch_sub(1, Ordering::SeqCst);
                         continue;
                     }
@@ -918,7 +942,7 @@ pub fn explore(
             });
         }
     });
-    ExploreOut { schedules: schedules.load(Ordering::Relaxed), steps: steps.load(Ordering::Relaxed), violations: viols.into_inner().unwrap_or_default(), outcomes: outcomes.into_inner().unwrap_or_default(), max_points: maxp.load(Ordering::Relaxed) as usize, distinct_states: seen_states.into_inner().map(|g| g.len() as u64).unwrap_or(0) }
+    ExploreOut { schedules: schedules.load(Ordering::Relaxed), steps: steps.load(Ordering::Relaxed), violations: viols.into_inner().unwrap_or_default(), outcomes: outcomes.into_inner().unwrap_or_default(), max_points: maxp.load(Ordering::Relaxed) as usize, distinct_states: seen_states.into_inner().map(|g| g.len() as u64).unwrap_or(0), stopped_early: stopped.load(Ordering::Relaxed) != 0 }
 }
 
 // ───────────────────────── sequential reference hub + linearizability ─────────────────────────
